@@ -35,6 +35,7 @@ Definition hist_of (buf : Z) (ops : list dop) (outs : list (list (xmsg * Z))) (d
 
 Section Sim.
 Variable outs : list (list (xmsg * Z)).
+Variable discs : list nat.     (* connections that are disconnected at some point of the script *)
 
 Definition out_x (x : nat) : list (xmsg * Z) := nth x outs [].
 
@@ -129,6 +130,11 @@ Fixpoint drive (fuel : nat) (paused : list nat) (s : rstate) (c : nat) : option 
               | Some s1 => drive f paused (step s1 (LRun c)) c
               | None => None
               end
+            else if (mem_conn c' discs || is_sentinel e) && Nat.leb (obs_total c') (ev_count (flow (r_cs s c'))) then
+              (* everything c' ever received is already on its way, and c' is disconnected
+                 later (or this is a flush event published while the harness was finishing):
+                 the copy is lost either here (full queue) or when the session ends *)
+              drive f paused (step s (LRun c)) c
             else
               (* not received: must have been dropped, so the queue must be full even
                  though the forwarder ran as late as possible *)
@@ -212,7 +218,8 @@ Definition model_agrees (buf : Z) (ops : list dop) (outs : list (list (xmsg * Z)
   | None => false
   | Some s0 =>
       let conns := seq 0 (length outs) in
-      match sim outs conns ops [] s0 with
+      let discs := flat_map (fun o => match o with DO c ODisc _ _ => [c] | _ => [] end) ops in
+      match sim outs discs conns ops [] s0 with
       | None => false
       | Some s1 =>
           match finish outs s1 conns with
